@@ -199,6 +199,61 @@ theorem firstConflict_none {ls : List KeyLock} {now tx : Nat} {keys : List Nat}
         · exact ih h k hk' l hl
       · exact ih h k hk' l hl
 
+/-! ### the lock set of `prepare` -/
+
+theorem mem_pushNew {acc ks : List Nat} {k : Nat} : k ∈ pushNew acc ks ↔ k ∈ acc ∨ k ∈ ks := by
+  induction ks generalizing acc with
+  | nil => simp [pushNew]
+  | cons k0 r ih =>
+    simp only [pushNew]
+    rw [ih]
+    cases hc : acc.contains k0 with
+    | true =>
+      have : k0 ∈ acc := by simpa using hc
+      simp only [if_true, List.mem_cons]
+      constructor
+      · rintro (h | h)
+        · exact Or.inl h
+        · exact Or.inr (Or.inr h)
+      · rintro (h | rfl | h)
+        · exact Or.inl h
+        · exact Or.inl this
+        · exact Or.inr h
+    | false =>
+      simp only [Bool.false_eq_true, if_false, List.mem_append, List.mem_cons, List.not_mem_nil, or_false]
+      constructor
+      · rintro ((h | h) | h)
+        · exact Or.inl h
+        · exact Or.inr (Or.inl h)
+        · exact Or.inr (Or.inr h)
+      · rintro (h | h | h)
+        · exact Or.inl (Or.inl h)
+        · exact Or.inl (Or.inr h)
+        · exact Or.inr h
+
+/-- the lock set of `prepare` is exactly: the logical key, the storage key and the write key of
+    every operation -/
+theorem mem_lockKeys {ops : List Op} {k : Nat} :
+    k ∈ lockKeys ops ↔ ∃ op ∈ ops, k = op.key ∨ k = op.undoKey ∨ k = op.writeKey := by
+  simp only [lockKeys, mem_pushNew, List.mem_map, List.mem_flatMap, List.mem_cons, List.not_mem_nil,
+    or_false]
+  constructor
+  · rintro (⟨op, hop, rfl⟩ | ⟨op, hop, h⟩)
+    · exact ⟨op, hop, Or.inl rfl⟩
+    · exact ⟨op, hop, Or.inr h⟩
+  · rintro ⟨op, hop, h | h⟩
+    · exact Or.inl ⟨op, hop, h.symm⟩
+    · exact Or.inr ⟨op, hop, h⟩
+
+theorem key_mem_lockKeys {ops : List Op} {op : Op} (h : op ∈ ops) : op.key ∈ lockKeys ops :=
+  mem_lockKeys.2 ⟨op, h, Or.inl rfl⟩
+
+theorem undoKey_mem_lockKeys {ops : List Op} {op : Op} (h : op ∈ ops) : op.undoKey ∈ lockKeys ops :=
+  mem_lockKeys.2 ⟨op, h, Or.inr (Or.inl rfl)⟩
+
+theorem writeKey_mem_lockKeys {ops : List Op} {op : Op} (h : op ∈ ops) : op.writeKey ∈ lockKeys ops :=
+  mem_lockKeys.2 ⟨op, h, Or.inr (Or.inr rfl)⟩
+
 /-! ### participant -/
 
 theorem findPrepared_some {ps : List PreparedTx} {tx : Nat} {pt : PreparedTx}
@@ -218,8 +273,8 @@ theorem mem_removePrepared {ps : List PreparedTx} {tx : Nat} {pt : PreparedTx} :
 structure PInv (now nextHandle : Nat) (p : Participant) : Prop where
   undoMatch : ∀ pt ∈ p.prepared, ∀ u ∈ pt.undo, undoOk p.store u
   undoKeys : ∀ pt ∈ p.prepared, ∀ u ∈ pt.undo, ∃ op ∈ pt.ops, op.undoKey = u.key
-  held : ∀ pt ∈ p.prepared, ∀ op ∈ pt.ops,
-      ∃ l, findLock p.locks.locks op.key = some l ∧ l.tx = pt.tx ∧ l.handle = pt.handle
+  held : ∀ pt ∈ p.prepared, ∀ k ∈ lockKeys pt.ops,
+      ∃ l, findLock p.locks.locks k = some l ∧ l.tx = pt.tx ∧ l.handle = pt.handle
   prepHandleLt : ∀ pt ∈ p.prepared, pt.handle < nextHandle
   handleDistinct : ∀ pt ∈ p.prepared, ∀ pt' ∈ p.prepared, pt.handle = pt'.handle → pt.tx = pt'.tx
   notExpired : ∀ l ∈ p.locks.locks, l.expired now = false
@@ -241,9 +296,9 @@ theorem PInv.finish {now nh : Nat} {p : Participant} (h : PInv now nh p) {pt : P
     obtain ⟨h1, h2⟩ := mem_removePrepared.1 hpt'
     exact undoOk_of_sget_eq (hst pt' h1 h2 u hu) (h.undoMatch pt' h1 u hu)
   · intro pt' hpt'; exact h.undoKeys pt' (mem_removePrepared.1 hpt').1
-  · intro pt' hpt' op hop
+  · intro pt' hpt' k hk
     obtain ⟨h1, h2⟩ := mem_removePrepared.1 hpt'
-    obtain ⟨l, hl, htx, hh⟩ := h.held pt' h1 op hop
+    obtain ⟨l, hl, htx, hh⟩ := h.held pt' h1 k hk
     refine ⟨l, ?_, htx, hh⟩
     simp only [LockTable.releaseByHandle, LockTable.releaseWhere]
     apply findLock_filter hl
@@ -258,14 +313,19 @@ theorem PInv.finish {now nh : Nat} {p : Participant} (h : PInv now nh p) {pt : P
     simp only [LockTable.releaseByHandle, LockTable.releaseWhere] at hl
     exact h.notExpired l (List.mem_filter.1 hl).1
 
-/-- the lock discipline among the operations prepared on one participant -/
-def PDisc (p : Participant) : Prop :=
-  ∀ pt ∈ p.prepared, ∀ pt' ∈ p.prepared, ∀ op ∈ pt.ops, ∀ op' ∈ pt'.ops,
-    op.writeKey = op'.undoKey → op.key = op'.key
+/-- two records prepared on one participant that lock a common key belong to the same transaction -/
+theorem PInv.disjoint {now nh : Nat} {p : Participant} (h : PInv now nh p) {pt pt' : PreparedTx}
+    (hpt : pt ∈ p.prepared) (hpt' : pt' ∈ p.prepared) {k : Nat} (hk : k ∈ lockKeys pt.ops)
+    (hk' : k ∈ lockKeys pt'.ops) : pt.tx = pt'.tx := by
+  obtain ⟨l, hl, htx, _⟩ := h.held pt hpt k hk
+  obtain ⟨l', hl', htx', _⟩ := h.held pt' hpt' k hk'
+  rw [hl'] at hl
+  cases hl
+  exact htx.symm.trans htx'
 
-/-- `commit` writes only keys that no OTHER prepared transaction holds an undo image of: such a key
-    would (lock discipline) be covered by a logical key that both transactions have locked. -/
-theorem PInv.commit {now nh : Nat} {p : Participant} (h : PInv now nh p) (hd : PDisc p) (tx : Nat) :
+/-- `commit` writes only keys that no OTHER prepared transaction holds an undo image of: the write key
+    of the committing transaction and the storage key of the other one are both in their lock sets. -/
+theorem PInv.commit {now nh : Nat} {p : Participant} (h : PInv now nh p) (tx : Nat) :
     PInv now nh (p.commit tx).1 := by
   unfold Participant.commit
   split
@@ -278,12 +338,10 @@ theorem PInv.commit {now nh : Nat} {p : Participant} (h : PInv now nh p) (hd : P
     apply sget_applyOps
     intro op hop heq
     obtain ⟨op', hop', hk⟩ := h.undoKeys pt' h1 u hu
-    have hkk : op.key = op'.key := hd pt hm pt' h1 op hop op' hop' (heq.trans hk.symm)
-    obtain ⟨l, hl, htx1, _⟩ := h.held pt hm op hop
-    obtain ⟨l', hl', htx', _⟩ := h.held pt' h1 op' hop'
-    rw [hkk, hl'] at hl
-    cases hl
-    exact h2 (htx'.symm.trans htx1)
+    apply h2
+    apply h.disjoint h1 hm (undoKey_mem_lockKeys hop')
+    rw [hk, ← heq]
+    exact writeKey_mem_lockKeys hop
 
 theorem PInv.abort {now nh : Nat} {p : Participant} (h : PInv now nh p) (tx : Nat) :
     PInv now nh (p.abort tx).1 ∧ ∀ k, sget (p.abort tx).1.store k = sget p.store k := by
@@ -299,20 +357,20 @@ theorem PInv.abort {now nh : Nat} {p : Participant} (h : PInv now nh p) (tx : Na
 
 theorem prepare_store (p : Participant) (now nh tx : Nat) (ops : List Op) :
     (p.prepare now nh tx ops).1.store = p.store := by
-  unfold Participant.prepare
+  unfold Participant.prepare Participant.prepareWith
   dsimp only
   split <;> rfl
 
 theorem prepare_eq (p : Participant) (now nh tx : Nat) (ops : List Op) :
     (∃ c, p.prepare now nh tx ops = (p, .conflict c)) ∨
-    (∃ lt, p.locks.tryLock now nh tx (ops.map Op.key) = .ok lt ∧
+    (∃ lt, p.locks.tryLock now nh tx (lockKeys ops) = .ok lt ∧
       p.prepare now nh tx ops =
         ({ p with locks := lt,
                   prepared := ⟨tx, nh, ops, now, ops.map (fun op => capture p.store op.undoKey)⟩ ::
                     removePrepared p.prepared tx }, .yes nh (ops.map Op.key))) := by
-  unfold Participant.prepare
+  unfold Participant.prepare Participant.prepareWith
   dsimp only
-  cases hl : p.locks.tryLock now nh tx (ops.map Op.key) with
+  cases hl : p.locks.tryLock now nh tx (lockKeys ops) with
   | error c => exact Or.inl ⟨c, rfl⟩
   | ok lt => exact Or.inr ⟨lt, rfl, rfl⟩
 
@@ -329,10 +387,10 @@ theorem PInv.prepare {now nh : Nat} {p : Participant} (h : PInv now nh p) (tx : 
       cases hl
       have hnc := firstConflict_none hfc
       -- keys of other prepared txs are not among the newly locked keys
-      have hother : ∀ pt' ∈ p.prepared, pt'.tx ≠ tx → ∀ op ∈ pt'.ops, op.key ∉ ops.map Op.key := by
-        intro pt' hpt' hne op hop hin
-        obtain ⟨l, hl, htx, _⟩ := h.held pt' hpt' op hop
-        rcases hnc op.key hin l hl with he | he
+      have hother : ∀ pt' ∈ p.prepared, pt'.tx ≠ tx → ∀ k ∈ lockKeys pt'.ops, k ∉ lockKeys ops := by
+        intro pt' hpt' hne k hk hin
+        obtain ⟨l, hl, htx, _⟩ := h.held pt' hpt' k hk
+        rcases hnc k hin l hl with he | he
         · rw [h.notExpired l (findLock_some hl).1] at he; cases he
         · exact hne (htx.symm.trans he)
       constructor
@@ -348,17 +406,17 @@ theorem PInv.prepare {now nh : Nat} {p : Participant} (h : PInv now nh p) (tx : 
           obtain ⟨op, hop, rfl⟩ := hu
           exact ⟨op, hop, (capture_key _ _).symm⟩
         · exact h.undoKeys pt' (mem_removePrepared.1 h1).1 u hu
-      · intro pt' hpt' op hop
+      · intro pt' hpt' k hk
         rcases List.mem_cons.1 hpt' with rfl | h1
-        · refine ⟨⟨op.key, tx, nh, now, p.locks.defaultTimeout⟩, ?_, rfl, rfl⟩
+        · refine ⟨⟨k, tx, nh, now, p.locks.defaultTimeout⟩, ?_, rfl, rfl⟩
           rw [findLock_insertLocks]
-          have : op.key ∈ ops.map Op.key := List.mem_map.2 ⟨op, hop, rfl⟩
+          have : k ∈ lockKeys ops := hk
           simp [this]
         · obtain ⟨h2, h3⟩ := mem_removePrepared.1 h1
-          obtain ⟨l, hl, htx, hh⟩ := h.held pt' h2 op hop
+          obtain ⟨l, hl, htx, hh⟩ := h.held pt' h2 k hk
           refine ⟨l, ?_, htx, hh⟩
           rw [findLock_insertLocks]
-          simp only [hother pt' h2 h3 op hop, if_false]
+          simp only [hother pt' h2 h3 k hk, if_false]
           exact hl
       · intro pt' hpt'
         rcases List.mem_cons.1 hpt' with rfl | h1
@@ -396,36 +454,6 @@ theorem lockDiscipline_iff (U : List Op) : lockDiscipline U = true ↔ Disc U :=
 
 theorem Disc.sub {U V : List Op} (h : Disc V) (hs : ∀ a ∈ U, a ∈ V) : Disc U :=
   fun a ha b hb => h a (hs a ha) b (hs b hb)
-
-/-- every operation that travels in a PREPARE or sits in a prepared record was asked for by a client,
-    and the clients' operations keep the lock discipline -/
-structure DInv (s : Sys) : Prop where
-  disc : Disc (allOps s.specs)
-  msgOps : ∀ tx sh ops, Msg.prepare tx sh ops ∈ s.msgs → ∀ op ∈ ops, op ∈ allOps s.specs
-  prepOps : ∀ p ∈ s.parts, ∀ pt ∈ p.prepared, ∀ op ∈ pt.ops, op ∈ allOps s.specs
-
-theorem DInv.pdisc {s : Sys} (h : DInv s) {p : Participant} (hp : p ∈ s.parts) : PDisc p :=
-  fun pt hpt pt' hpt' op hop op' hop' =>
-    h.disc op (h.prepOps p hp pt hpt op hop) op' (h.prepOps p hp pt' hpt' op' hop')
-
-theorem DInv.init (stores : List Store) (a b c : Nat) : DInv (Sys.init stores a b c) := by
-  refine ⟨?_, ?_, ?_⟩
-  · intro a ha; simp [Sys.init, allOps] at ha
-  · intro tx sh ops hm; simp [Sys.init] at hm
-  · intro p hp pt hpt
-    simp only [Sys.init, List.mem_map] at hp
-    obtain ⟨st, _, rfl⟩ := hp
-    simp at hpt
-
-/-- frame: same clients, no new PREPARE message, no new prepared record -/
-theorem DInv.frame {s s' : Sys} (h : DInv s) (hs : s'.specs = s.specs)
-    (hm : ∀ tx sh ops, Msg.prepare tx sh ops ∈ s'.msgs → Msg.prepare tx sh ops ∈ s.msgs)
-    (hp : ∀ p' ∈ s'.parts, ∀ pt ∈ p'.prepared, ∃ p ∈ s.parts, pt ∈ p.prepared) : DInv s' := by
-  refine ⟨by rw [hs]; exact h.disc, ?_, ?_⟩
-  · intro tx sh ops hmm; rw [hs]; exact h.msgOps tx sh ops (hm tx sh ops hmm)
-  · intro p' hp' pt hpt
-    obtain ⟨p, hpm, hptm⟩ := hp p' hp' pt hpt
-    rw [hs]; exact h.prepOps p hpm pt hptm
 
 def SInv (s : Sys) : Prop := ∀ p ∈ s.parts, PInv s.now s.nextHandle p
 
@@ -481,7 +509,7 @@ theorem mem_set {α : Type} {l : List α} {i : Nat} {a b : α} (h : b ∈ l.set 
 
 /-- what one event of the alphabet does to the participants: the invariant is kept, and every
     shard's data is unchanged unless the event delivers a commit message -/
-theorem SInv.step {s : Sys} (h : SInv s) (hD : DInv s) (e : Ev) (ha : s.inAlphabet e = true) :
+theorem SInv.step {s : Sys} (h : SInv s) (e : Ev) (ha : s.inAlphabet e = true) :
     SInv (s.step e) ∧
     ((∀ i tx sh, e = .deliver i → s.msgs[i]? ≠ some (Msg.commit tx sh)) →
       ∀ sh k, sget ((s.step e).storeOf sh) k = sget (s.storeOf sh) k) := by
@@ -557,7 +585,7 @@ theorem SInv.step {s : Sys} (h : SInv s) (hD : DInv s) (e : Ev) (ha : s.inAlphab
           · intro q hq
             rcases mem_set hq with h1 | rfl
             · exact h q h1
-            · exact (h p hpm).commit (hD.pdisc hpm) tx
+            · exact (h p hpm).commit tx
           · intro hne
             exact absurd hm (hne i tx sh rfl)
       | abort tx sh =>
@@ -575,174 +603,15 @@ theorem SInv.step {s : Sys} (h : SInv s) (hD : DInv s) (e : Ev) (ha : s.inAlphab
             simp only [Sys.storeOf]
             exact sget_store_set hp ((h p hpm).abort tx).2 sh' k
 
-theorem mem_allOps_append {specs : List TxSpec} {sp : TxSpec} {op : Op} :
-    op ∈ allOps (specs ++ [sp]) ↔ op ∈ allOps specs ∨ op ∈ sp.ops.flatMap (·.2) := by
-  simp [allOps]
-
-theorem opsFor_sub (sp : TxSpec) (sh : Nat) : ∀ op ∈ sp.opsFor sh, op ∈ sp.ops.flatMap (·.2) := by
-  intro op hop
-  unfold TxSpec.opsFor at hop
-  split at hop
-  · rename_i e he
-    exact List.mem_flatMap.2 ⟨e, List.mem_of_find?_eq_some he, hop⟩
-  · simp at hop
-
-theorem DInv.step {s : Sys} (h : DInv s) (e : Ev) (ha : s.inAlphabet e = true) : DInv (s.step e) := by
-  have hparts : ∀ (s' : Sys), s'.parts = s.parts →
-      ∀ p' ∈ s'.parts, ∀ pt ∈ p'.prepared, ∃ p ∈ s.parts, pt ∈ p.prepared :=
-    fun s' he p' hp' pt hpt => ⟨p', he ▸ hp', hpt⟩
-  cases e with
-  | begin shards ops sim =>
-    simp only [Sys.step, Sys.stepR]
-    split
-    · exact h
-    · rename_i r hb
-      simp only [Sys.inAlphabet] at ha
-      have hd := (lockDiscipline_iff _).1 ha
-      refine ⟨?_, ?_, ?_⟩
-      · intro a haa b hbb
-        apply hd
-        · rcases mem_allOps_append.1 haa with h1 | h1
-          · exact List.mem_append.2 (Or.inl h1)
-          · exact List.mem_append.2 (Or.inr h1)
-        · rcases mem_allOps_append.1 hbb with h1 | h1
-          · exact List.mem_append.2 (Or.inl h1)
-          · exact List.mem_append.2 (Or.inr h1)
-      · intro tx sh ops' hm op hop
-        apply mem_allOps_append.2
-        rcases List.mem_append.1 hm with h1 | h1
-        · exact Or.inl (h.msgOps tx sh ops' h1 op hop)
-        · simp only [List.mem_map, Msg.prepare.injEq] at h1
-          obtain ⟨sh', _, _, _, rfl⟩ := h1
-          exact Or.inr (opsFor_sub _ _ op hop)
-      · intro p hp pt hpt op hop
-        exact mem_allOps_append.2 (Or.inl (h.prepOps p hp pt hpt op hop))
-  | sweep =>
-    refine h.frame rfl ?_ (hparts _ rfl)
-    intro tx sh ops hm
-    simp only [Sys.step, Sys.stepR, Sys.drain, List.mem_append] at hm
-    rcases hm with h1 | h1
-    · exact h1
-    · simp only [abortMsgs, List.mem_flatMap, List.mem_map] at h1
-      obtain ⟨_, _, _, _, h2⟩ := h1
-      cases h2
-  | tick d => exact h.frame rfl (fun _ _ _ hm => hm) (hparts _ rfl)
-  | forge tx sh v =>
-    refine h.frame rfl ?_ (hparts _ rfl)
-    intro tx' sh' ops hm
-    simp only [Sys.step, Sys.stepR, List.mem_append, List.mem_singleton] at hm
-    rcases hm with h1 | h1
-    · exact h1
-    · cases h1
-  | coordCommit tx =>
-    simp only [Sys.step, Sys.stepR]
-    split
-    · refine h.frame rfl ?_ (hparts _ rfl)
-      intro tx' sh' ops hm
-      simp only [List.mem_append, List.mem_map] at hm
-      rcases hm with h1 | ⟨_, _, h2⟩
-      · exact h1
-      · cases h2
-    · exact h
-    · exact h
-  | coordAbort tx =>
-    simp only [Sys.step, Sys.stepR]
-    split
-    · refine h.frame rfl ?_ (hparts _ rfl)
-      intro tx' sh' ops hm
-      simp only [List.mem_append, List.mem_map] at hm
-      rcases hm with h1 | ⟨_, _, h2⟩
-      · exact h1
-      · cases h2
-    · exact h
-    · exact h
-  | cleanupStale sh t => simp [Sys.inAlphabet] at ha
-  | recover sh t => simp [Sys.inAlphabet] at ha
-  | deliver i =>
-    simp only [Sys.step, Sys.stepR]
-    split
-    · exact h
-    · rename_i m hm
-      have hmm : m ∈ s.msgs := List.mem_of_getElem? hm
-      cases m with
-      | vote tx sh v =>
-        simp only [Sys.deliverMsg]
-        split
-        · exact h
-        · refine h.frame rfl ?_ (hparts _ rfl)
-          intro tx' sh' ops hm'
-          simp only [Sys.drain, List.mem_append] at hm'
-          rcases hm' with h1 | h1
-          · exact h1
-          · simp only [abortMsgs, List.mem_flatMap, List.mem_map] at h1
-            obtain ⟨_, _, _, _, h2⟩ := h1
-            cases h2
-      | prepare tx sh ops =>
-        simp only [Sys.deliverMsg]
-        split
-        · exact h
-        · rename_i p hp
-          have hpm : p ∈ s.parts := List.mem_of_getElem? hp
-          refine ⟨h.disc, ?_, ?_⟩
-          · intro tx' sh' ops' hm' op hop
-            simp only [List.mem_append, List.mem_singleton] at hm'
-            rcases hm' with h1 | h1
-            · exact h.msgOps tx' sh' ops' h1 op hop
-            · cases h1
-          · intro q hq pt hpt op hop
-            rcases mem_set hq with h1 | rfl
-            · exact h.prepOps q h1 pt hpt op hop
-            · rcases prepare_eq p s.now s.nextHandle tx ops with ⟨c, he⟩ | ⟨lt, _, he⟩
-              · rw [he] at hpt; exact h.prepOps p hpm pt hpt op hop
-              · rw [he] at hpt
-                rcases List.mem_cons.1 hpt with rfl | h2
-                · exact h.msgOps tx sh ops hmm op hop
-                · exact h.prepOps p hpm pt (mem_removePrepared.1 h2).1 op hop
-      | commit tx sh =>
-        simp only [Sys.deliverMsg]
-        split
-        · exact h
-        · rename_i p hp
-          have hpm : p ∈ s.parts := List.mem_of_getElem? hp
-          refine h.frame rfl (fun _ _ _ hm' => hm') ?_
-          intro q hq pt hpt
-          rcases mem_set hq with h1 | rfl
-          · exact ⟨q, h1, hpt⟩
-          · refine ⟨p, hpm, ?_⟩
-            unfold Participant.commit at hpt
-            split at hpt
-            · exact hpt
-            · exact (mem_removePrepared.1 hpt).1
-      | abort tx sh =>
-        simp only [Sys.deliverMsg]
-        split
-        · exact h
-        · rename_i p hp
-          have hpm : p ∈ s.parts := List.mem_of_getElem? hp
-          refine h.frame rfl (fun _ _ _ hm' => hm') ?_
-          intro q hq pt hpt
-          rcases mem_set hq with h1 | rfl
-          · exact ⟨q, h1, hpt⟩
-          · refine ⟨p, hpm, ?_⟩
-            unfold Participant.abort at hpt
-            split at hpt
-            · exact hpt
-            · exact (mem_removePrepared.1 hpt).1
-
-theorem DInv.reach {s0 s : Sys} (h0 : DInv s0) (hr : Reach s0 s) : DInv s := by
+theorem SInv.reach {s0 s : Sys} (h0 : SInv s0) (hr : Reach s0 s) : SInv s := by
   induction hr with
   | refl => exact h0
-  | step e _ ha ih => exact ih.step e ha
+  | step e hr' ha ih => exact (ih.step e ha).1
 
-theorem SInv.reach {s0 s : Sys} (h0 : SInv s0) (hD : DInv s0) (hr : Reach s0 s) : SInv s := by
-  induction hr with
-  | refl => exact h0
-  | step e hr' ha ih => exact (ih.step (hD.reach hr') e ha).1
-
-/-- both invariants of the states reachable from an initial configuration -/
+/-- the participant invariant of the states reachable from an initial configuration -/
 theorem sinv_of_reach {stores : List Store} {a b c : Nat} {s : Sys}
-    (hr : Reach (Sys.init stores a b c) s) : SInv s ∧ DInv s :=
-  ⟨(SInv.init stores a b c).reach (DInv.init stores a b c) hr, (DInv.init stores a b c).reach hr⟩
+    (hr : Reach (Sys.init stores a b c) s) : SInv s :=
+  (SInv.init stores a b c).reach hr
 
 /-! ### shard data = replay of the applied commits -/
 
@@ -899,7 +768,7 @@ theorem RInv.reach {stores : List Store} {a b c : Nat} {s : Sys}
   induction hr with
   | refl => exact ⟨RInv.init stores a b c, by intro _ _ _ h; simp [Sys.init] at h⟩
   | step e hr' ha ih =>
-    exact RInv.step (sinv_of_reach hr').1 ih.1 ih.2 e ha
+    exact RInv.step (sinv_of_reach hr') ih.1 ih.2 e ha
 
 /-- `es` are events of the alphabet none of which delivers a commit message -/
 def Sys.quiet (s : Sys) : List Ev → Bool
